@@ -174,7 +174,56 @@ func runC34(c *Ctx) error {
 		}
 		c34run(c, script, i < len(fixed))
 	}
+	c34stress(c)
 	return nil
+}
+
+// registrations racing with a timer loop that iterates as fast as it can: a timer
+// registered with a one-hour interval must never start
+func c34stress(c *Ctx) {
+	regs := 30000
+	if c.Thorough() {
+		regs = 600000
+	}
+	ts, err := util.NewSimpleTimers(3, time.Nanosecond)
+	if err != nil {
+		return
+	}
+	ctx, cancel := context.WithCancel(context.Background())
+	defer cancel()
+	if err := ts.Start(ctx); err != nil {
+		return
+	}
+	var started int32
+	var first atomic.Value
+	var wg sync.WaitGroup
+	var done int64
+	for g := 0; g < 4; g++ {
+		wg.Add(1)
+		go func(g int) {
+			defer wg.Done()
+			for atomic.AddInt64(&done, 1) <= int64(regs) && atomic.LoadInt32(&started) == 0 {
+				id := util.TimerID(fmt.Sprintf("s%d", (int(atomic.LoadInt64(&done))+g)%5))
+				at := time.Now()
+				_, _ = ts.New(id, func(uint64) time.Duration { return time.Hour }, func(context.Context, uint64) (bool, error) {
+					if atomic.CompareAndSwapInt32(&started, 0, 1) {
+						first.Store(fmt.Sprintf("timer %q started %s after its registration, interval 1h", id, time.Since(at)))
+					}
+					return false, nil
+				})
+				if g == 0 && atomic.LoadInt64(&done)%7 == 0 {
+					_ = ts.StopTimers([]util.TimerID{id})
+				}
+			}
+		}(g)
+	}
+	wg.Wait()
+	_ = ts.Stop()
+	c.Eval(int(atomic.LoadInt64(&done)))
+	c.Count("stress", "registrations-racing-iterate")
+	if atomic.LoadInt32(&started) != 0 {
+		c.Violation("C34:callback-before-interval", fmt.Sprint(first.Load()), map[string]interface{}{"stress": "4 goroutines registering 1-hour timers under 5 ids while the timer loop iterates continuously"})
+	}
 }
 
 // c34run executes a script (or generates one on the fly when script == nil)
